@@ -163,6 +163,18 @@ CLAIMED = {
         ref="§5 C02",
         note=TRUST + " Assumed: protoutil and structpb accessors are pure; PipelineSteps/PipelineAsSteps only through their length / non-nil contracts.",
         technique="contract-based deductive verification: WP/VC generation over go/ssa + SMT (z3/cvc5)"),
+    "C14": dict(
+        level="other",
+        text="Partial (typing half): the core compiler (StatementProcessor) and the MongoDB compiler (Compiler.Compile, native path) are "
+             "both proved against one typing table tnext(statement, type) covering 25 statement kinds (V, E, in/out/both and their "
+             "Null and edge variants, has/hasLabel/hasKey/hasId, distinct, fields, limit/skip/range, count, render, path, aggregate): "
+             "for every statement sequence of covered kinds the MongoDB compiler's result type is the fold of the table, i.e. the type "
+             "the core compiler assigns, and a statement the table rejects for the current type is rejected by both. Not decided: "
+             "as/select and mark types, and the whole filter-meaning half (it needs a model of MongoDB's query semantics).",
+        ref="§5 C14",
+        note=TRUST + " Assumed: convertHasExpression is pure (trusted); bson construction does not touch the modelled state; statements "
+             "handed over to the core engine (jump/set/increment, pipeline extensions) are outside the MongoDB contract.",
+        technique="contract-based deductive verification: both functions proved against one shared specification table, WP/VC + SMT"),
 }
 
 NOT_APPLICABLE = {
